@@ -5,7 +5,7 @@ bit-vector mode): addi/subi/muli = + - *; divui/remui = floor division / remaind
 assumed non-negative: they are sizes, strides, bounds); shli = * 2^k; ori/andi only in bit-vector mode."""
 from xdsl.dialects.builtin import IndexType, IntAttr, IntegerAttr, IntegerType
 from xdsl.ir import Operation, SSAValue, den
-from pyvc.api import bv_and, bv_const, bv_lshr, bv_or, bv_shl
+from pyvc.api import bv_add, bv_and, bv_const, bv_lshr, bv_mul, bv_or, bv_sext, bv_shl, bv_sub, bv_zext
 
 
 MODE = {"bv": False}  # bit-vector mode: integer-typed constants denote fixed-width words
@@ -49,17 +49,17 @@ class _Binary(Operation):
 
 class AddiOp(_Binary):
     def sem(self, a, b):
-        return a + b
+        return bv_add(a, b, self.width) if MODE["bv"] == "all" else a + b
 
 
 class SubiOp(_Binary):
     def sem(self, a, b):
-        return a - b
+        return bv_sub(a, b, self.width) if MODE["bv"] == "all" else a - b
 
 
 class MuliOp(_Binary):
     def sem(self, a, b):
-        return a * b
+        return bv_mul(a, b, self.width) if MODE["bv"] == "all" else a * b
 
 
 class DivUIOp(_Binary):
@@ -132,16 +132,32 @@ class IndexCastOp(Operation):
         return self.operands[0]
 
 
-class ExtUIOp(IndexCastOp):
-    pass
+class _WidthCast(Operation):
+    def __init__(self, inp, target_type=None):
+        inp = SSAValue.get(inp)
+        d = inp.den
+        if MODE["bv"] == "all" and d is not None and isinstance(inp.type, IntegerType) and isinstance(target_type, IntegerType):
+            d = self.conv(d, inp.type.width.data, target_type.width.data)
+        self._init_op([inp], [d], [target_type])
+
+    @property
+    def input(self):
+        return self.operands[0]
 
 
-class ExtSIOp(IndexCastOp):
-    pass
+class ExtUIOp(_WidthCast):
+    def conv(self, d, fw, tw):
+        return bv_zext(d, fw, tw)
 
 
-class TruncIOp(IndexCastOp):
-    pass
+class ExtSIOp(_WidthCast):
+    def conv(self, d, fw, tw):
+        return bv_sext(d, fw, tw)
+
+
+class TruncIOp(_WidthCast):
+    def conv(self, d, fw, tw):
+        return bv_zext(d, fw, tw)
 
 
 class CmpiOp(Operation):
